@@ -30,6 +30,7 @@ use barter_instrument::{
 use barter_integration::snapshot::Snapshot;
 use chrono::{DateTime, TimeZone, Utc};
 use rust_decimal::Decimal;
+use serde::{Serialize, de::DeserializeOwned};
 use serde_json::{Value, json};
 use std::panic::AssertUnwindSafe;
 use vh_common::*;
@@ -107,16 +108,19 @@ struct DdIn {
     v: Decimal,
     s: Ns,
     e: Ns,
+    /// persist / restore the generator after feeding this drawdown (before it is observed)
+    rt: bool,
 }
 impl DdIn {
     fn json(&self) -> Value {
-        json!({"v": self.v.to_string(), "s": time_json(self.s), "e": time_json(self.e)})
+        json!({"v": self.v.to_string(), "s": time_json(self.s), "e": time_json(self.e), "rt": self.rt})
     }
     fn from(v: &Value) -> Option<DdIn> {
         Some(DdIn {
             v: v.get("v")?.as_str()?.parse().ok()?,
             s: json_time(v.get("s")?)?,
             e: json_time(v.get("e")?)?,
+            rt: v.get("rt").and_then(|x| x.as_bool()).unwrap_or(false),
         })
     }
     fn dd(&self) -> Drawdown {
@@ -137,6 +141,8 @@ impl DdIn {
 enum Op {
     Upd { t: Ns, v: Decimal, w: Decimal },
     Gen,
+    /// persist / restore: the generator is replaced by its serde_json round trip
+    Rt,
 }
 impl Op {
     fn json(&self) -> Value {
@@ -145,11 +151,15 @@ impl Op {
                 json!({"t": time_json(*t), "v": v.to_string(), "w": w.to_string()})
             }
             Op::Gen => json!({"gen": true}),
+            Op::Rt => json!({"rt": true}),
         }
     }
     fn from(v: &Value) -> Option<Op> {
         if v.get("gen").is_some() {
             return Some(Op::Gen);
+        }
+        if v.get("rt").is_some() {
+            return Some(Op::Rt);
         }
         Some(Op::Upd {
             t: json_time(v.get("t")?)?,
@@ -170,6 +180,16 @@ fn ops_from(v: &Value) -> Option<Vec<Op>> {
 
 // ---- runners --------------------------------------------------------------------------------
 
+/// persist / restore: serialise to JSON text, deserialise, compare. Returns the restored value
+/// and whether it differs from the original (on the unchanged code it never does). A value
+/// that cannot be serialised or restored at all panics (caught: an observed outcome).
+fn roundtrip<T: Serialize + DeserializeOwned + PartialEq>(x: &T) -> (T, bool) {
+    let text = serde_json::to_string(x).expect("persist: serde_json::to_string failed");
+    let back: T = serde_json::from_str(&text).expect("restore: serde_json::from_str failed");
+    let changed = back != *x;
+    (back, changed)
+}
+
 struct Ran {
     coq: String,
     tags: Vec<String>,
@@ -186,13 +206,21 @@ fn panic_case(in_scope: bool, what: &str) -> Ran {
 }
 
 /// DrawdownGenerator directly. start = None: DrawdownGenerator::default(); Some: init(point).
-fn run_gen(start: &Option<(Ns, Decimal)>, ops: &[Op]) -> Ran {
+/// `via_new`: the same start state built with the public constructor `new(..)` instead.
+fn run_gen(start: &Option<(Ns, Decimal)>, ops: &[Op], via_new: bool) -> Ran {
     let r = catch(AssertUnwindSafe(|| {
         let mut tags = vec![];
-        let mut g = match start {
-            None => DrawdownGenerator::default(),
-            Some((t, v)) => DrawdownGenerator::init(Timed::new(*v, time_of(*t))),
+        let mut g = match (start, via_new) {
+            (None, false) => DrawdownGenerator::default(),
+            (None, true) => DrawdownGenerator::new(None, Decimal::ZERO, None, DateTime::<Utc>::default()),
+            (Some((t, v)), false) => DrawdownGenerator::init(Timed::new(*v, time_of(*t))),
+            (Some((t, v)), true) => {
+                DrawdownGenerator::new(Some(*v), Decimal::ZERO, Some(time_of(*t)), time_of(*t))
+            }
         };
+        if via_new {
+            tags.push("gen_start_via_new".to_string());
+        }
         let obs_of = |ret: &Option<Drawdown>, g: &DrawdownGenerator| {
             let probe = g.clone().generate();
             format!("(mkGObs {} {} {})", coq_odd(ret), coq_gstate(g), coq_odd(&probe))
@@ -229,6 +257,16 @@ fn run_gen(start: &Option<(Ns, Decimal)>, ops: &[Op]) -> Ran {
                     cops.push("GG".to_string());
                     obs.push(obs_of(&ret, &g));
                 }
+                Op::Rt => {
+                    let (back, changed) = roundtrip(&g);
+                    tags.push(
+                        if g.drawdown_max != Decimal::ZERO { "rt_mid_drawdown" } else { "rt_flat" }
+                            .to_string(),
+                    );
+                    g = back;
+                    cops.push(format!("(GR {})", b(changed)));
+                    obs.push(obs_of(&None, &g));
+                }
             }
         }
         Ran {
@@ -253,7 +291,7 @@ fn run_gen(start: &Option<(Ns, Decimal)>, ops: &[Op]) -> Ran {
 fn first_value(ops: &[Op]) -> Option<Decimal> {
     ops.iter().find_map(|o| match o {
         Op::Upd { v, .. } => Some(*v),
-        Op::Gen => None,
+        _ => None,
     })
 }
 
@@ -261,12 +299,27 @@ fn ascii(x: &str) -> String {
     x.chars().filter(|c| c.is_ascii() && *c != '"').take(80).collect()
 }
 
-fn run_max(init: &Option<DdIn>, ds: &[DdIn]) -> Ran {
+fn rts_coq(ds: &[DdIn], changed: bool) -> String {
+    format!(
+        "{} {}",
+        list(&ds.iter().map(|d| b(d.rt)).collect::<Vec<_>>()),
+        b(changed)
+    )
+}
+
+fn run_max(init: &Option<DdIn>, ds: &[DdIn], via_new: bool) -> Ran {
     let r = catch(AssertUnwindSafe(|| {
-        let mut g = match init {
-            None => MaxDrawdownGenerator::default(),
-            Some(d) => MaxDrawdownGenerator::init(d.dd()),
+        let mut g = match (init, via_new) {
+            (None, false) => MaxDrawdownGenerator::default(),
+            (None, true) => MaxDrawdownGenerator::new(None),
+            (Some(d), false) => MaxDrawdownGenerator::init(d.dd()),
+            (Some(d), true) => MaxDrawdownGenerator::new(Some(MaxDrawdown::new(Drawdown::new(
+                d.v,
+                time_of(d.s),
+                time_of(d.e),
+            )))),
         };
+        let mut changed = false;
         let obs0 = pair(&coq_omax(&g.max), &coq_omax(&g.generate()));
         let mut obs = vec![];
         let mut tags = vec![];
@@ -282,13 +335,23 @@ fn run_max(init: &Option<DdIn>, ds: &[DdIn]) -> Ran {
                 }
                 .to_string(),
             );
+            if d.rt {
+                let (back, c) = roundtrip(&g);
+                changed |= c;
+                g = back;
+                tags.push("max_rt".to_string());
+            }
             obs.push(pair(&coq_omax(&g.max), &coq_omax(&g.generate())));
+        }
+        if via_new {
+            tags.push("max_start_via_new".to_string());
         }
         Ran {
             coq: format!(
-                "(CMax {} {} {} {})",
+                "(CMax {} {} {} {} {})",
                 opt(init.as_ref().map(|d| d.coq())),
                 list(&ds.iter().map(|d| d.coq()).collect::<Vec<_>>()),
+                rts_coq(ds, changed),
                 obs0,
                 list(&obs)
             ),
@@ -299,25 +362,41 @@ fn run_max(init: &Option<DdIn>, ds: &[DdIn]) -> Ran {
     r.unwrap_or_else(|e| panic_case(true, &format!("MaxDrawdownGenerator: {}", ascii(&e))))
 }
 
-fn run_mean(init: &Option<DdIn>, ds: &[DdIn]) -> Ran {
+fn run_mean(init: &Option<DdIn>, ds: &[DdIn], via_new: bool) -> Ran {
     let r = catch(AssertUnwindSafe(|| {
-        let mut g = match init {
-            None => MeanDrawdownGenerator::default(),
-            Some(d) => MeanDrawdownGenerator::init(d.dd()),
+        let mut g = match (init, via_new) {
+            (None, false) => MeanDrawdownGenerator::default(),
+            (None, true) => MeanDrawdownGenerator::new(0, None),
+            (Some(d), false) => MeanDrawdownGenerator::init(d.dd()),
+            (Some(d), true) => MeanDrawdownGenerator::new(
+                1,
+                Some(MeanDrawdown::new(d.v, d.dd().duration().num_milliseconds())),
+            ),
         };
+        let mut changed = false;
         let obs0 = pair(&coq_meanstate(&g), &coq_omean(&g.generate()));
         let mut obs = vec![];
         let mut tags = vec![];
         for d in ds {
             tags.push(if g.mean_drawdown.is_none() { "mean_first" } else { "mean_next" }.to_string());
             g.update(&d.dd());
+            if d.rt {
+                let (back, c) = roundtrip(&g);
+                changed |= c;
+                g = back;
+                tags.push("mean_rt".to_string());
+            }
             obs.push(pair(&coq_meanstate(&g), &coq_omean(&g.generate())));
+        }
+        if via_new {
+            tags.push("mean_start_via_new".to_string());
         }
         Ran {
             coq: format!(
-                "(CMean {} {} {} {})",
+                "(CMean {} {} {} {} {})",
                 opt(init.as_ref().map(|d| d.coq())),
                 list(&ds.iter().map(|d| d.coq()).collect::<Vec<_>>()),
+                rts_coq(ds, changed),
                 obs0,
                 list(&obs)
             ),
@@ -339,12 +418,25 @@ fn coq_obal(b: &Option<Balance>) -> String {
     opt(b.map(|b| pair(&dec_q(b.total), &dec_q(b.free))))
 }
 
-fn run_asset(start: &(Ns, Decimal, Decimal), ops: &[Op]) -> Ran {
+/// `via_reset`: the generator is a `default()` one (fed a decoy history) that is then `reset`
+/// to the start balance, instead of `init(start)`.
+fn run_asset(start: &(Ns, Decimal, Decimal), ops: &[Op], via_reset: bool) -> Ran {
     let r = catch(AssertUnwindSafe(|| {
-        let mut g = TearSheetAssetGenerator::init(&Timed::new(
-            Balance::new(start.1, start.2),
-            time_of(start.0),
-        ));
+        let start_balance = Timed::new(Balance::new(start.1, start.2), time_of(start.0));
+        let mut g = if via_reset {
+            let mut g = TearSheetAssetGenerator::default();
+            for (i, v) in [50i64, 30, 70, 60].iter().enumerate() {
+                g.update_from_balance(Snapshot(&AssetBalance {
+                    asset: AssetIndex(0),
+                    balance: Balance::new(Decimal::new(*v, 0), Decimal::new(1, 0)),
+                    time_exchange: time_of(start.0 - 5_000_000_000 + i as i128 * 1_000_003),
+                }));
+            }
+            g.reset(&start_balance);
+            g
+        } else {
+            TearSheetAssetGenerator::init(&start_balance)
+        };
         let state = |g: &TearSheetAssetGenerator| {
             pair(
                 &coq_obal(&g.balance_now),
@@ -399,7 +491,20 @@ fn run_asset(start: &(Ns, Decimal, Decimal), ops: &[Op]) -> Ran {
                     ));
                     last_gen = true;
                 }
+                Op::Rt => {
+                    let (back, changed) = roundtrip(&g);
+                    tags.push(
+                        if g.drawdown.drawdown_max != Decimal::ZERO { "asset_rt_mid_drawdown" } else { "asset_rt_flat" }
+                            .to_string(),
+                    );
+                    g = back;
+                    cops.push(format!("(AR {})", b(changed)));
+                    obs.push(format!("(None, {})", state(&g)));
+                }
             }
+        }
+        if via_reset {
+            tags.push("asset_start_via_reset".to_string());
         }
         Ran {
             coq: format!(
@@ -438,9 +543,23 @@ fn position<K>(key: K, pnl: Decimal, t_exit: Ns) -> PositionExited<QuoteAsset, K
     }
 }
 
-fn run_inst(t0: Ns, ops: &[Op]) -> Ran {
+/// `via_reset`: `init(another time)` + a decoy history, then `reset(t0)`.
+fn run_inst(t0: Ns, ops: &[Op], via_reset: bool) -> Ran {
     let r = catch(AssertUnwindSafe(|| {
-        let mut g = TearSheetGenerator::init(time_of(t0));
+        let mut g = if via_reset {
+            let mut g = TearSheetGenerator::init(time_of(t0 - 9_000_000_000));
+            for (i, v) in [50i64, -20, 40, -10].iter().enumerate() {
+                g.update_from_position(&position(
+                    InstrumentIndex(0),
+                    Decimal::new(*v, 0),
+                    t0 - 5_000_000_000 + i as i128 * 1_000_003,
+                ));
+            }
+            g.reset(time_of(t0));
+            g
+        } else {
+            TearSheetGenerator::init(time_of(t0))
+        };
         let state = |g: &TearSheetGenerator| {
             format!(
                 "({}, {}, {})",
@@ -497,7 +616,20 @@ fn run_inst(t0: Ns, ops: &[Op]) -> Ran {
                     ));
                     last_gen = true;
                 }
+                Op::Rt => {
+                    let (back, changed) = roundtrip(&g);
+                    tags.push(
+                        if g.pnl_drawdown.drawdown_max != Decimal::ZERO { "inst_rt_mid_drawdown" } else { "inst_rt_flat" }
+                            .to_string(),
+                    );
+                    g = back;
+                    cops.push(format!("(IR {})", b(changed)));
+                    obs.push(format!("(None, {})", state(&g)));
+                }
             }
+        }
+        if via_reset {
+            tags.push("inst_start_via_reset".to_string());
         }
         Ran {
             coq: format!("(CInst {} {} {} {})", zt(t0), list(&cops), obs0, list(&obs)),
@@ -522,6 +654,10 @@ enum SOp {
     Pos { k: usize, by_name: bool, t: Ns, v: Decimal },
     Bal { k: usize, by_name: bool, t: Ns, v: Decimal, w: Decimal },
     Gen,
+    /// persist / restore the tear sheet generator of instrument / asset `k` (the whole summary
+    /// generator cannot go through JSON: its asset map is keyed by a struct)
+    RtInst { k: usize },
+    RtAsset { k: usize },
 }
 impl SOp {
     fn json(&self) -> Value {
@@ -533,11 +669,19 @@ impl SOp {
                 json!({"bal": k, "by_name": by_name, "t": time_json(*t), "v": v.to_string(), "w": w.to_string()})
             }
             SOp::Gen => json!({"gen": true}),
+            SOp::RtInst { k } => json!({"rt_inst": k}),
+            SOp::RtAsset { k } => json!({"rt_asset": k}),
         }
     }
     fn from(v: &Value) -> Option<SOp> {
         if v.get("gen").is_some() {
             return Some(SOp::Gen);
+        }
+        if let Some(k) = v.get("rt_inst") {
+            return Some(SOp::RtInst { k: k.as_u64()? as usize });
+        }
+        if let Some(k) = v.get("rt_asset") {
+            return Some(SOp::RtAsset { k: k.as_u64()? as usize });
         }
         let by_name = v.get("by_name").and_then(|b| b.as_bool()).unwrap_or(false);
         let t = json_time(v.get("t")?)?;
@@ -660,6 +804,26 @@ fn run_summary(t0: Ns, n_inst: usize, starts: &[(Ns, Decimal, Decimal)], ops: &[
                     cops.push(format!("(SB {}%nat {} {} {})", k, zt(*t), dec_q(*v), dec_q(*w)));
                     obs.push(format!("(None, {})", state(&g)));
                 }
+                SOp::RtInst { k } => {
+                    if *k >= n_inst {
+                        continue;
+                    }
+                    let (back, changed) = roundtrip(&g.instruments[*k]);
+                    g.instruments[*k] = back;
+                    tags.push("summary_rt_inst".to_string());
+                    cops.push(format!("(SRI {}%nat {})", k, b(changed)));
+                    obs.push(format!("(None, {})", state(&g)));
+                }
+                SOp::RtAsset { k } => {
+                    if *k >= starts.len() {
+                        continue;
+                    }
+                    let (back, changed) = roundtrip(&g.assets[*k]);
+                    g.assets[*k] = back;
+                    tags.push("summary_rt_asset".to_string());
+                    cops.push(format!("(SRA {}%nat {})", k, b(changed)));
+                    obs.push(format!("(None, {})", state(&g)));
+                }
                 SOp::Gen => {
                     let sum = g.generate(Daily);
                     let is: Vec<String> = (0..n_inst)
@@ -719,6 +883,8 @@ fn dds(v: &Value) -> Option<Vec<DdIn>> {
 
 /// None when the input is malformed (e.g. damaged by the shrinker): such inputs are skipped.
 fn run_input(inp: &Value) -> Option<Ran> {
+    // "alt": reach the same start state through the other public constructor (new / reset)
+    let alt = inp.get("alt").and_then(|x| x.as_bool()).unwrap_or(false);
     match inp.get("kind")?.as_str()? {
         "gen" => {
             let st = &inp["start"];
@@ -727,10 +893,10 @@ fn run_input(inp: &Value) -> Option<Ran> {
             } else {
                 Some((json_time(st.get("t")?)?, st.get("v")?.as_str()?.parse().ok()?))
             };
-            Some(run_gen(&start, &ops_from(&inp["ops"])?))
+            Some(run_gen(&start, &ops_from(&inp["ops"])?, alt))
         }
-        "max" => Some(run_max(&opt_dd(&inp["init"])?, &dds(&inp["ds"])?)),
-        "mean" => Some(run_mean(&opt_dd(&inp["init"])?, &dds(&inp["ds"])?)),
+        "max" => Some(run_max(&opt_dd(&inp["init"])?, &dds(&inp["ds"])?, alt)),
+        "mean" => Some(run_mean(&opt_dd(&inp["init"])?, &dds(&inp["ds"])?, alt)),
         "asset" => {
             let st = &inp["start"];
             let start = (
@@ -738,9 +904,9 @@ fn run_input(inp: &Value) -> Option<Ran> {
                 st.get("v")?.as_str()?.parse().ok()?,
                 st.get("w")?.as_str()?.parse().ok()?,
             );
-            Some(run_asset(&start, &ops_from(&inp["ops"])?))
+            Some(run_asset(&start, &ops_from(&inp["ops"])?, alt))
         }
-        "inst" => Some(run_inst(json_time(inp.get("t0")?)?, &ops_from(&inp["ops"])?)),
+        "inst" => Some(run_inst(json_time(inp.get("t0")?)?, &ops_from(&inp["ops"])?, alt)),
         "summary" => {
             let starts: Option<Vec<(Ns, Decimal, Decimal)>> = inp
                 .get("assets")?
@@ -795,6 +961,10 @@ fn summary_input(t0: Ns, n_inst: usize, starts: &[(Ns, Decimal, Decimal)], ops: 
     json!({"kind": "summary", "t0": time_json(t0), "n_inst": n_inst,
            "assets": starts.iter().map(|(t, v, w)| json!({"t": time_json(*t), "v": v.to_string(), "w": w.to_string()})).collect::<Vec<_>>(),
            "ops": ops.iter().map(|o| o.json()).collect::<Vec<_>>()})
+}
+fn with_alt(mut v: Value, alt: bool) -> Value {
+    v["alt"] = json!(alt);
+    v
 }
 fn dd_input(kind: &str, init: &Option<DdIn>, ds: &[DdIn]) -> Value {
     json!({"kind": kind, "init": init.as_ref().map(|d| d.json()),
@@ -981,6 +1151,9 @@ fn with_gens(r: &mut Rng, pts: &[(Ns, Decimal)], mode: u64, free: bool) -> Vec<O
     for (t, v) in pts {
         let w = if free { decoy_free(r, *v) } else { Decimal::ZERO };
         ops.push(Op::Upd { t: *t, v: *v, w });
+        if r.chance(1, 6) {
+            ops.push(Op::Rt);   // persist / restore, often in the middle of a decline
+        }
         let k = match mode {
             0 => 0,
             1 => if r.chance(1, 4) { 1 + r.below(3) } else { 0 },
@@ -1009,7 +1182,7 @@ fn gen_dd(r: &mut Rng, style: u64) -> DdIn {
         1 => -gen_gap(r, false),
         _ => gen_gap(r, false),
     };
-    DdIn { v, s, e }
+    DdIn { v, s, e, rt: r.chance(1, 4) }
 }
 
 /// PnL deltas whose cumulative sum follows the curve (first delta = first value)
@@ -1069,19 +1242,34 @@ fn table(em: &mut Emitter) {
                 }
                 emit(em, "table", gen_input(&None, &ops));
             }
+            if n <= 3 {
+                // persist / restore after every prefix, then generate(); start built by new(..)
+                let mut ops = vec![];
+                for (t, v) in curve(n, code, 0) {
+                    ops.push(Op::Upd { t, v, w: Decimal::ZERO });
+                    ops.push(Op::Rt);
+                    ops.push(Op::Gen);
+                }
+                emit(em, "table", with_alt(gen_input(&None, &ops), true));
+            }
         }
     }
-    // tear sheets: every curve of length 1..=3 after the start value with generate() k = 0..3
+    // tear sheets: every curve of length 1..=3 after the start value with generate() k = 0..2
     // times after every update (k = 0: once at the end), and every curve of length 4 with k = 2
     // (alternately through the asset and the instrument tear sheet)
     for n in 1..=4usize {
         for code in 0..3usize.pow(n as u32) {
-            let ks: &[usize] = if n <= 3 { &[0, 1, 2, 3] } else { &[2] };
+            let ks: &[usize] = if n <= 3 { &[0, 1, 2] } else { &[2] };
             for k in ks {
                 let pts = curve(n, code, 1);
                 let mut ops = vec![];
+                // k = 1: persist / restore after every update, generator built by default() + reset
+                let alt = *k == 1;
                 for (t, v) in &pts {
                     ops.push(Op::Upd { t: *t, v: *v, w: vals[0] });
+                    if alt {
+                        ops.push(Op::Rt);
+                    }
                     for _ in 0..*k {
                         ops.push(Op::Gen);
                     }
@@ -1090,7 +1278,7 @@ fn table(em: &mut Emitter) {
                     ops.push(Op::Gen);
                 }
                 if n <= 3 || code % 2 == 0 {
-                    emit(em, "table", asset_input(&(table_time(0), vals[1], vals[0]), &ops));
+                    emit(em, "table", with_alt(asset_input(&(table_time(0), vals[1], vals[0]), &ops), alt));
                 }
                 if n == 4 && code % 2 == 0 {
                     continue;
@@ -1100,6 +1288,9 @@ fn table(em: &mut Emitter) {
                 let mut iops = vec![];
                 for (t, d) in deltas(&all) {
                     iops.push(Op::Upd { t, v: d, w: Decimal::ZERO });
+                    if alt {
+                        iops.push(Op::Rt);
+                    }
                     for _ in 0..*k {
                         iops.push(Op::Gen);
                     }
@@ -1107,7 +1298,7 @@ fn table(em: &mut Emitter) {
                 if *k == 0 {
                     iops.push(Op::Gen);
                 }
-                emit(em, "table", inst_input(table_time(0) - 5, &iops));
+                emit(em, "table", with_alt(inst_input(table_time(0) - 5, &iops), alt));
             }
         }
     }
@@ -1122,12 +1313,20 @@ fn table(em: &mut Emitter) {
             let mut ds = vec![];
             for i in 0..n {
                 let s = T0 + 10 * NS * i as i128 + 17 * i as i128;
-                ds.push(DdIn { v: dvals[c % 3], s, e: s + durs[(c + i) % 3] });
+                ds.push(DdIn { v: dvals[c % 3], s, e: s + durs[(c + i) % 3], rt: false });
                 c /= 3;
             }
-            for init in [None, Some(DdIn { v: mk_dec(2, 1), s: T0 - 7 * MS, e: T0 - 2 * MS + 999_999 })] {
-                emit(em, "table", dd_input("max", &init, &ds));
-                emit(em, "table", dd_input("mean", &init, &ds));
+            // default() start with persist / restore after every update; init(first) start; the
+            // same start state built by new(..)
+            let first = DdIn { v: mk_dec(2, 1), s: T0 - 7 * MS, e: T0 - 2 * MS + 999_999, rt: false };
+            let ds_rt: Vec<DdIn> = ds.iter().map(|d| DdIn { rt: true, ..d.clone() }).collect();
+            for kind in ["max", "mean"] {
+                emit(em, "table", dd_input(kind, &None, &ds_rt));
+                emit(em, "table", dd_input(kind, &Some(first.clone()), &ds));
+                emit(em, "table", with_alt(dd_input(kind, &Some(first.clone()), &ds_rt), true));
+                if code % 3 == 0 {
+                    emit(em, "table", with_alt(dd_input(kind, &None, &ds), true));
+                }
             }
         }
     }
@@ -1171,6 +1370,14 @@ fn gen_summary(em: &mut Emitter, r: &mut Rng, stream: &'static str, max_len: usi
             let w = decoy_free(r, v);
             ops.push(SOp::Bal { k: k - n_inst, by_name, t, v, w });
         }
+        if r.chance(1, 5) {
+            // persist / restore one tear sheet generator (any key, not only the one just fed)
+            if r.chance(1, 2) {
+                ops.push(SOp::RtInst { k: r.below(n_inst as u64) as usize });
+            } else {
+                ops.push(SOp::RtAsset { k: r.below(n_asset as u64) as usize });
+            }
+        }
         if r.chance(1, 4) {
             for _ in 0..1 + r.below(3) {
                 ops.push(SOp::Gen);
@@ -1183,7 +1390,7 @@ fn gen_summary(em: &mut Emitter, r: &mut Rng, stream: &'static str, max_len: usi
 
 fn random(em: &mut Emitter, r: &mut Rng, thorough: bool) {
     let (n_gen, n_adv, n_dd, n_ts, n_sum, max_len) =
-        if thorough { (900, 300, 600, 600, 120, 50) } else { (130, 60, 100, 110, 24, 22) };
+        if thorough { (900, 300, 600, 600, 120, 50) } else { (100, 50, 90, 90, 18, 22) };
     for i in 0..n_gen + n_adv {
         let adv = i >= n_gen;
         let n = 1 + r.below(max_len) as usize;
@@ -1192,14 +1399,16 @@ fn random(em: &mut Emitter, r: &mut Rng, thorough: bool) {
         let mode = r.below(3);
         let (start, rest) = if use_init { (Some(pts[0]), &pts[1..]) } else { (None, &pts[..]) };
         let ops = with_gens(r, rest, mode, false);
-        emit(em, if adv { "adversarial" } else { "random" }, gen_input(&start, &ops));
+        let alt = r.chance(1, 4);
+        emit(em, if adv { "adversarial" } else { "random" }, with_alt(gen_input(&start, &ops), alt));
     }
     for i in 0..n_dd {
         let n = r.below(if thorough { 60 } else { 14 }) as usize;
         let style = r.below(3);
         let ds: Vec<DdIn> = (0..n).map(|_| gen_dd(r, style)).collect();
         let init = if r.chance(1, 3) { Some(gen_dd(r, style)) } else { None };
-        emit(em, "random", dd_input(if i % 2 == 0 { "max" } else { "mean" }, &init, &ds));
+        let alt = r.chance(1, 4);
+        emit(em, "random", with_alt(dd_input(if i % 2 == 0 { "max" } else { "mean" }, &init, &ds), alt));
     }
     for i in 0..n_ts {
         let adv = i % 5 == 4;
@@ -1210,11 +1419,13 @@ fn random(em: &mut Emitter, r: &mut Rng, thorough: bool) {
         if i % 2 == 0 {
             let ops = with_gens(r, &pts[1..], mode, true);
             let free0 = decoy_free(r, pts[0].1);
-            emit(em, stream, asset_input(&(pts[0].0, pts[0].1, free0), &ops));
+            let alt = r.chance(1, 4);
+            emit(em, stream, with_alt(asset_input(&(pts[0].0, pts[0].1, free0), &ops), alt));
         } else {
             let ds = deltas(&pts);
             let ops = with_gens(r, &ds, mode, false);
-            emit(em, stream, inst_input(pts[0].0 - 1 - r.below(1000) as i128, &ops));
+            let alt = r.chance(1, 4);
+            emit(em, stream, with_alt(inst_input(pts[0].0 - 1 - r.below(1000) as i128, &ops), alt));
         }
     }
     for i in 0..n_sum {
